@@ -138,6 +138,15 @@ func (w *Writer) writeByte(v byte) *Writer {
 // 若任一步骤失败，会回滚缓冲区到调用前长度，并保证 Bytes() 不包含部分写入的数据。
 func (w *Writer) WriteMessage(message any, codec Codec) (err error) {
 	startLen := len(w.buf)
+	// nil 消息（例如表示失败的 PipeResult 不携带消息）：写入空负载与保留名称，由 ReadMessage 还原为 nil，
+	// 而不是当作未注册消息交给 Codec（默认未配置 Codec 时会直接失败，导致失败结果无法发往远程）
+	if message == nil {
+		if err = w.WriteFrom([]byte(nil), nilMessageName); err != nil {
+			w.buf = w.buf[:startLen]
+			return err
+		}
+		return nil
+	}
 	messageDesc := QueryMessageDesc(message)
 
 	if messageDesc.IsOutside() {
